@@ -18,7 +18,11 @@ package main
 // bounds test of joinedMultiCollider) and refuses MODEL-NE-SPEC if it differs from what the property
 // demands (some primitive meets the query shape: Props/C07 mesh_rect_touches_iff,
 // mesh_triangle_collisions); A: any other hierarchy (MeshToCollider itself, BVHToCollider): by those
-// theorems the answer does not depend on the hierarchy.
+// theorems the answer does not depend on the hierarchy; W m tok...: BVHToCollider over a hand-built BVH whose
+// branches have two or more children (c07_bvh.go) - the op line carries the shape (preorder, L = leaf, B k =
+// branch with k children) and the primitives in leaf order, and the driver runs the faithful n-ary hierarchy of
+// M3d/Model/CollideBVH.lean next to the specification (Props/C07 bvh_rect_touches_iff, bvh_segment_touches_iff,
+// bvh_segment_touches_iff_2d, bvh_triangle_collisions).
 //
 // rect2x data: segments whose vector has components 0 or +-2^k, dyadic positions, boxes with power-of-two
 // sides - every float operation of Segment.RectCollision is exact on them.  The meshes deliberately
@@ -288,7 +292,19 @@ func runRect2(c *hlib.Ctx, n int) {
 		// the hierarchy
 		var col model2d.MultiCollider
 		mode, how := "A", ""
-		switch c.Rng.Intn(5) {
+		switch c.Rng.Intn(7) {
+		case 5, 6:
+			// a hand-built BVH with branches of 2..6 children (mode W: the op line carries the shape)
+			if len(segs) > 0 {
+				if c.Rng.Intn(2) == 0 {
+					c.Rng.Shuffle(len(segs), func(a, b int) { segs[a], segs[b] = segs[b], segs[a] })
+				}
+				var shape string
+				col, segs, shape, how = wideBVH2(c, "rect2x", segs)
+				mode = "W " + shape
+			} else {
+				col, how = model2d.GroupedSegmentsToCollider(nil), "empty"
+			}
 		case 0:
 			// the order of construction (consecutive pieces of a run are neighbours in the tree)
 			col, mode, how = model2d.GroupedSegmentsToCollider(segs), "G", "grouped-given-order"
@@ -359,11 +375,16 @@ func runRect2(c *hlib.Ctx, n int) {
 		}
 		var col model2d.MultiCollider
 		how := ""
-		switch c.Rng.Intn(3) {
+		switch c.Rng.Intn(4) {
 		case 0:
 			col, how = model2d.MeshToCollider(model2d.NewMeshSegments(segs)), "MeshToCollider"
 		case 1:
 			col, how = model2d.GroupedSegmentsToCollider(append([]*model2d.Segment{}, segs...)), "ungrouped"
+		case 2:
+			if len(segs) == 0 {
+				continue
+			}
+			col, _, _, how = wideBVH2(c, "mesh2d-rect", segs)
 		default:
 			if len(segs) == 0 {
 				continue
@@ -723,7 +744,18 @@ func runMeshTriTri(c *hlib.Ctx, n int) {
 		sortTris3(tris)
 		var col model3d.MultiCollider
 		mode, how := "A", ""
-		switch c.Rng.Intn(4) {
+		switch c.Rng.Intn(6) {
+		case 4, 5:
+			if len(tris) > 0 {
+				if c.Rng.Intn(2) == 0 {
+					model3d.GroupTriangles(tris)
+				}
+				var shape string
+				col, tris, shape, how = wideBVH3(c, "mtritrix", tris)
+				mode = "W " + shape
+			} else {
+				col, how = model3d.GroupedTrianglesToCollider(nil), "empty"
+			}
 		case 0:
 			col, mode, how = model3d.GroupedTrianglesToCollider(tris), "G", "grouped-given-order"
 		case 1:
@@ -816,11 +848,13 @@ func runFlatRect3(c *hlib.Ctx, n int) {
 		sortTris3(tris)
 		var col model3d.MultiCollider
 		how := ""
-		switch c.Rng.Intn(3) {
+		switch c.Rng.Intn(4) {
 		case 0:
 			col, how = model3d.MeshToCollider(model3d.NewMeshTriangles(tris)), "MeshToCollider"
 		case 1:
 			col, how = model3d.GroupedTrianglesToCollider(tris), "ungrouped"
+		case 2:
+			col, _, _, how = wideBVH3(c, "mesh-rect", tris)
 		default:
 			col, how = model3d.BVHToCollider(model3d.NewBVHAreaDensity(append([]*model3d.Triangle{}, tris...))), "BVHToCollider"
 		}
@@ -897,7 +931,18 @@ func runMeshSegment(c *hlib.Ctx, n int) {
 		tris, fam := exactSoup3(c)
 		var col model3d.MultiCollider
 		mode, how := "A", ""
-		switch c.Rng.Intn(4) {
+		switch c.Rng.Intn(6) {
+		case 4, 5:
+			if len(tris) > 0 {
+				if c.Rng.Intn(2) == 0 {
+					model3d.GroupTriangles(tris)
+				}
+				var shape string
+				col, tris, shape, how = wideBVH3(c, "msegx", tris)
+				mode = "W " + shape
+			} else {
+				col, how = model3d.GroupedTrianglesToCollider(nil), "empty"
+			}
 		case 0:
 			col, mode, how = model3d.GroupedTrianglesToCollider(tris), "G", "grouped-given-order"
 		case 1:
@@ -956,7 +1001,14 @@ func runMeshSegment(c *hlib.Ctx, n int) {
 		}
 		var col model2d.MultiCollider
 		mode, how := "A", ""
-		switch c.Rng.Intn(4) {
+		switch c.Rng.Intn(6) {
+		case 4, 5:
+			if c.Rng.Intn(2) == 0 {
+				c.Rng.Shuffle(len(segs), func(a, b int) { segs[a], segs[b] = segs[b], segs[a] })
+			}
+			var shape string
+			col, segs, shape, how = wideBVH2(c, "mseg2x", segs)
+			mode = "W " + shape
 		case 0:
 			col, mode, how = model2d.GroupedSegmentsToCollider(segs), "G", "grouped-given-order"
 		case 1:
